@@ -421,7 +421,7 @@ impl Check for C17 {
     fn runs(&self, tier: Tier) -> u64 {
         match tier {
             Tier::Quick => 600_000,
-            Tier::Thorough => 12_000_000,
+            Tier::Thorough => 8_000_000,
         }
     }
     fn generate(&self, run_seed: u64, _index: u64, tier: Tier) -> Case {
@@ -852,7 +852,7 @@ impl Check for C18 {
     fn runs(&self, tier: Tier) -> u64 {
         match tier {
             Tier::Quick => 3500,
-            Tier::Thorough => 40_000,
+            Tier::Thorough => 20_000,
         }
     }
     fn generate(&self, run_seed: u64, _index: u64, tier: Tier) -> Case {
